@@ -13,6 +13,7 @@ import (
 	"path/filepath"
 	"sort"
 	"strings"
+	"sync"
 
 	"golang.org/x/tools/go/packages"
 	"golang.org/x/tools/go/ssa"
@@ -339,10 +340,13 @@ func (g *Gen) FindFunc(name string) *ssa.Function {
 
 // GenFunc generates all obligations of one function under contract.
 func (g *Gen) GenFunc(fn *ssa.Function, spec *FuncSpec) (vc *FnVC, err error) {
+	if spec.Opts["mode"] == "bv" {
+		return g.GenFuncBV(fn, spec)
+	}
 	v := &FnVC{g: g, fn: fn, spec: spec, sf: g.specFileOf(spec), declared: map[string]string{}, regs: map[ssa.Value]Val{},
 		edges: map[[2]int]*edgeInfo{}, reach: map[*ssa.BasicBlock]*Term{}, counters: map[string]int{},
 		locals: map[*ssa.Alloc]string{}, lstruct: map[*ssa.Alloc]bool{}, heapSorts: map[string]string{},
-		loopInfo: map[*Loop]*loopState{}, blockCases: map[*ssa.BasicBlock][]*Term{}, paramConsts: map[string]bool{}, usedSpecs: map[string]bool{}, ghostVars: map[string]types.Type{}, callOrd: map[string]int{}}
+		loopInfo: map[*Loop]*loopState{}, blockCases: map[*ssa.BasicBlock][]*Term{}, paramConsts: map[string]bool{}, refHeaps: map[string]bool{}, usedSpecs: map[string]bool{}, ghostVars: map[string]types.Type{}, callOrd: map[string]int{}}
 	v.name = fn.Pkg.Pkg.Name() + "." + funcKey(fn)
 	v.pkg = fn.Pkg.Pkg
 	defer func() {
@@ -427,6 +431,8 @@ func (g *Gen) GenFunc(fn *ssa.Function, spec *FuncSpec) (vc *FnVC, err error) {
 			}
 		}
 	}
+	v.prescanHeaps()
+	v.assumeClosure(v.entry, True, nil)
 	for _, fvv := range fn.FreeVars {
 		unsupported("free variable %s (closure body)", fvv.Name())
 	}
@@ -446,6 +452,9 @@ func (g *Gen) GenFunc(fn *ssa.Function, spec *FuncSpec) (vc *FnVC, err error) {
 		for _, name := range strings.Split(ls, ",") {
 			v.assumeLemma(strings.TrimSpace(name))
 		}
+	}
+	for _, u := range spec.Uses {
+		v.useLemma(env, u, True)
 	}
 	v.run()
 	// every loop must have been reached or be dead
@@ -570,7 +579,14 @@ func (g *Gen) specFuncDefs(v *FnVC) string {
 func (o *Obligation) Query() string { return o.QueryCase(nil) }
 
 // QueryCase renders the obligation under an extra case assumption.
+var queryMu sync.Mutex
+
 func (o *Obligation) QueryCase(extra *Term) string {
+	if o.RawQuery != "" {
+		return o.RawQuery
+	}
+	queryMu.Lock() // Term.String caches; rendering is not concurrent
+	defer queryMu.Unlock()
 	v := o.vc
 	var b strings.Builder
 	b.WriteString(v.g.preamble(v))
@@ -631,4 +647,13 @@ func (v *FnVC) ancestorsOf(b *ssa.BasicBlock) map[*ssa.BasicBlock]bool {
 	rec(b)
 	v.ancestors[b] = m
 	return m
+}
+
+func (g *Gen) specFileByPkgName(name string) *SpecFile {
+	for path, sf := range g.specFiles {
+		if p := g.pkgs[path]; p != nil && (p.Types.Name() == name || strings.HasSuffix(path, "/"+name)) {
+			return sf
+		}
+	}
+	return nil
 }
